@@ -315,6 +315,20 @@ def replay(job, rec):
                                  tags={"prop": name, "raises_under_transform": True,
                                        "xf_rows": min(len(tr["rx"]), 1),
                                        "xf_cols": min(len(tr["cx"]), 1)}))
+        # the reported display order is what every output was re-indexed by: it must still be
+        # the same after all of them were read
+        for side, part in (("base", pb), ("transformed", px)):
+            try:
+                again = ([int(v) for v in part.row_order()],
+                         [int(v) for v in part.column_order()] if two_d else [])
+            except Exception as e:  # noqa
+                again = ("raise", repr(e))
+            first = ((tr["rb"], tr["cb"]) if side == "base" else (tr["rx"], tr["cx"]))
+            if again != (list(first[0]), list(first[1])):
+                mism.append(Mismatch(prop_id, None,
+                                     "the display order the %s run reports changed after its "
+                                     "outputs were read: first %s, then %s" % (side, first, again),
+                                     {"partition": k}, tags={"prop": "orders", "reread": True}))
         st["traces"].append(tr)
         st["meta"][tid] = {"rec": rec, "partition": k}
         evals += len(tr["ev"])
